@@ -4,7 +4,7 @@ C01 — Route dispatch is sound, complete and priority-respecting.
 
 Model   : Model/Radix.lean   (`build`, `serve`: the tree engine of rivaas.dev/router, text level)
 Oracle  : Spec/Match.lean    (`refMatch`, `specOK`: declarative segment-wise matcher)
-Classes : Spec/MatchClass.lean (`dShadow`, `dNames`, `dCfall`, `dOverwrite`: recorded findings)
+Classes : Spec/MatchClass.lean (`dShadow`, `dCfall`, `dOverwrite`: recorded findings; `dNames`: K01a, repaired)
 
 The theorems quantify over every constraint verdict table `sat`, every registration script whose
 patterns are in the vocabulary of the property, and every request path that starts with `/`
@@ -15,7 +15,7 @@ open Rivaas.Route Rivaas.Radix Rivaas.Match Rivaas.MatchL Rivaas.RadixL
 
 /-- **C01, equality form.** For every script of the vocabulary, every constraint table and every
 request whose path starts with `/`: unless the request falls into one of the recorded classes
-(`shadow`: K01b, `names`: K01a, `cfall`: K01f — `overwrite`, K01c, is covered by `names` and `cfall`),
+(`shadow`: K01b, `cfall`: K01f — `overwrite`, K01c, is covered by `cfall`; `names`, K01a, was repaired),
 what the tree engine does is exactly the reference outcome: the route the declarative matcher selects
 (static over parameter over wildcard, segment-wise, constraints part of matching, last registration
 among equals) runs and reads its own bindings, or the answer is 405 with exactly the matching methods,
@@ -23,22 +23,21 @@ or 404 / the NoRoute handler. -/
 theorem dispatch_eq_ref_partial (sat : Nat → Bytes → Bool) (noRoute : Bool) (script : List Reg) (R : List Route)
     (hR : specRoutes script = some R) (hN : normal R = true) (hstd : ∀ g ∈ script, g.method ∈ stdMethods)
     (req : Req) (hp : req.path.head? = some '/')
-    (hS : dShadow R req (cutAny req.path) = false) (hNm : dNames R req (cutAny req.path) = false)
+    (hS : dShadow R req (cutAny req.path) = false)
     (hC : dCfall sat R req (cutAny req.path) = false) :
     serve sat (build noRoute script) req = refMatch sat noRoute R req (cutAny req.path) := by
   have hguard : ∀ m ∈ methodsOf req, dShadow1 R m (cutAny req.path) = false ∧
-      dNames1 R m (cutAny req.path) = false ∧ dCfall1 sat R m (cutAny req.path) = false := by
+      dCfall1 sat R m (cutAny req.path) = false := by
     intro m hm
-    refine ⟨?_, ?_, ?_⟩
+    refine ⟨?_, ?_⟩
     · exact Bool.eq_false_iff.mpr ((List.any_eq_false.mp hS) m hm)
-    · exact Bool.eq_false_iff.mpr ((List.any_eq_false.mp hNm) m hm)
     · exact Bool.eq_false_iff.mpr ((List.any_eq_false.mp hC) m hm)
   have hlook : ∀ m ∈ methodsOf req, lookupM sat (build noRoute script) m req.path =
       (refRoute sat R m (cutAny req.path)).map fun r =>
         (leafOf r, pushAll Ctx.fresh ((routeMatch sat r (cutAny req.path)).getD [])) := by
     intro m hm
-    obtain ⟨h1, h2, h3⟩ := hguard m hm
-    exact lemma_lookupM sat noRoute script R hR hN hstd m req.path hp h1 h2 h3
+    obtain ⟨h1, h3⟩ := hguard m hm
+    exact lemma_lookupM sat noRoute script R hR hN hstd m req.path hp h1 h3
   rw [lemma_serve_lookup, hlook req.method (lemma_mem_methodsOf req _ (Or.inl rfl))]
   unfold refMatch
   cases href : refRoute sat R req.method (cutAny req.path) with
@@ -107,17 +106,13 @@ theorem deviation_classified (sat : Nat → Bytes → Bool) (noRoute : Bool) (sc
     (hR : specRoutes script = some R) (hN : normal R = true) (hstd : ∀ g ∈ script, g.method ∈ stdMethods)
     (req : Req) (hp : req.path.head? = some '/')
     (hdev : serve sat (build noRoute script) req ≠ refMatch sat noRoute R req (cutAny req.path)) :
-    dShadow R req (cutAny req.path) = true ∨ dNames R req (cutAny req.path) = true ∨
-      dCfall sat R req (cutAny req.path) = true := by
+    dShadow R req (cutAny req.path) = true ∨ dCfall sat R req (cutAny req.path) = true := by
   cases hS : dShadow R req (cutAny req.path) with
   | true => left; rfl
   | false =>
-    cases hNm : dNames R req (cutAny req.path) with
-    | true => right; left; rfl
-    | false =>
-      cases hC : dCfall sat R req (cutAny req.path) with
-      | true => right; right; rfl
-      | false => exact absurd (dispatch_eq_ref_partial sat noRoute script R hR hN hstd req hp hS hNm hC) hdev
+    cases hC : dCfall sat R req (cutAny req.path) with
+    | true => right; rfl
+    | false => exact absurd (dispatch_eq_ref_partial sat noRoute script R hR hN hstd req hp hS hC) hdev
 
 /-- the class token the driver prints is `-` only where the equality holds -/
 theorem classify_dash (sat : Nat → Bytes → Bool) (noRoute : Bool) (script : List Reg) (R : List Route)
@@ -126,25 +121,19 @@ theorem classify_dash (sat : Nat → Bytes → Bool) (noRoute : Bool) (script : 
     (hcls : classify sat R req (cutAny req.path) = "-") :
     serve sat (build noRoute script) req = refMatch sat noRoute R req (cutAny req.path) := by
   unfold classify at hcls
-  cases hO : dOverwrite R req (cutAny req.path) with
-  | true => simp [hO] at hcls
+  cases hS : dShadow R req (cutAny req.path) with
+  | true => cases hO : dOverwrite R req (cutAny req.path) <;> cases hC : dCfall sat R req (cutAny req.path) <;> simp [hO, hS, hC] at hcls
   | false =>
-    cases hNm : dNames R req (cutAny req.path) with
-    | true => simp [hO, hNm] at hcls
-    | false =>
-      cases hS : dShadow R req (cutAny req.path) with
-      | true => simp [hO, hNm, hS] at hcls
-      | false =>
-        cases hC : dCfall sat R req (cutAny req.path) with
-        | true => simp [hO, hNm, hS, hC] at hcls
-        | false => exact dispatch_eq_ref_partial sat noRoute script R hR hN hstd req hp hS hNm hC
+    cases hC : dCfall sat R req (cutAny req.path) with
+    | true => cases hO : dOverwrite R req (cutAny req.path) <;> simp [hO, hS, hC] at hcls
+    | false => exact dispatch_eq_ref_partial sat noRoute script R hR hN hstd req hp hS hC
 
 /-- **Allow is exact**: under the guards a 405 lists exactly (sorted) the standard methods that have a
 matching route, and a 405 is answered exactly when the request method has none but some method has. -/
 theorem allow_exact (sat : Nat → Bytes → Bool) (noRoute : Bool) (script : List Reg) (R : List Route)
     (hR : specRoutes script = some R) (hN : normal R = true) (hstd : ∀ g ∈ script, g.method ∈ stdMethods)
     (req : Req) (hp : req.path.head? = some '/')
-    (hS : dShadow R req (cutAny req.path) = false) (hNm : dNames R req (cutAny req.path) = false)
+    (hS : dShadow R req (cutAny req.path) = false)
     (hC : dCfall sat R req (cutAny req.path) = false)
     (hnone : cands sat R req.method (cutAny req.path) = []) :
     (serve sat (build noRoute script) req).ran = none ∧
@@ -154,7 +143,7 @@ theorem allow_exact (sat : Nat → Bytes → Bool) (noRoute : Bool) (script : Li
      (allowedSet sat R (cutAny req.path) = [] →
         (serve sat (build noRoute script) req).status = 404 ∧
         (serve sat (build noRoute script) req).noRoute = noRoute)) := by
-  rw [dispatch_eq_ref_partial sat noRoute script R hR hN hstd req hp hS hNm hC]
+  rw [dispatch_eq_ref_partial sat noRoute script R hR hN hstd req hp hS hC]
   have href : refRoute sat R req.method (cutAny req.path) = none := by unfold refRoute; rw [hnone]; rfl
   unfold refMatch
   simp only [href]
@@ -243,10 +232,10 @@ registered route of the method matches the path (constraints included). -/
 theorem routeExists_exact (sat : Nat → Bytes → Bool) (noRoute : Bool) (script : List Reg) (R : List Route)
     (hR : specRoutes script = some R) (hN : normal R = true) (hstd : ∀ g ∈ script, g.method ∈ stdMethods)
     (m path : Bytes) (hm : m ∈ stdMethods) (hp : path.head? = some '/')
-    (hS : dShadow1 R m (cutAny path) = false) (hNm : dNames1 R m (cutAny path) = false)
+    (hS : dShadow1 R m (cutAny path) = false)
     (hC : dCfall1 sat R m (cutAny path) = false) :
     routeExists sat (build noRoute script) m path = !(cands sat R m (cutAny path)).isEmpty := by
-  have hlook := lemma_lookupM sat noRoute script R hR hN hstd m path hp hS hNm hC
+  have hlook := lemma_lookupM sat noRoute script R hR hN hstd m path hp hS hC
   have hT := treeOf_build noRoute script R hR m hm
   rw [treeOf_eq _ _ hm] at hT
   unfold getT at hT
@@ -423,10 +412,10 @@ oracle (`specOK`) that the driver evaluates on the implementation's observation.
 theorem C01_meets_oracle (sat : Nat → Bytes → Bool) (noRoute : Bool) (script : List Reg) (R : List Route)
     (hR : specRoutes script = some R) (hN : normal R = true) (hstd : ∀ g ∈ script, g.method ∈ stdMethods)
     (req : Req) (hp : req.path.head? = some '/')
-    (hS : dShadow R req (cutAny req.path) = false) (hNm : dNames R req (cutAny req.path) = false)
+    (hS : dShadow R req (cutAny req.path) = false)
     (hC : dCfall sat R req (cutAny req.path) = false) :
     specOK sat R req (cutAny req.path) (serve sat (build noRoute script) req) = true := by
-  rw [dispatch_eq_ref_partial sat noRoute script R hR hN hstd req hp hS hNm hC]
+  rw [dispatch_eq_ref_partial sat noRoute script R hR hN hstd req hp hS hC]
   exact ref_meets_oracle sat noRoute R hN req _
 
 
@@ -438,14 +427,19 @@ def anySat : Nat → Bytes → Bool := fun _ _ => true
 def G : Bytes := B "GET"
 def reg (m p : String) (cons : List (Bytes × Nat) := []) : Reg := ⟨B m, [], B p, cons⟩
 
-/-- K01a — one parameter child per node keeps the first registered name -/
+/-- K01a (repaired) — as shipped, one parameter child per node kept the first registered name and the handler
+of `/a/:y/c` read `x=1`, `y=""`; now the captured values are named after the matched route's own pattern:
+the request is in the old class `names`, and the engine answers exactly like the reference -/
 def k01aScript : List Reg := [reg "GET" "/a/:x/b", reg "GET" "/a/:y/c"]
 def k01aReq : Req := ⟨G, B "/a/1/c", [B "x", B "y"]⟩
 
-theorem K01a_witness : ∃ R, specRoutes k01aScript = some R ∧ normal R = true ∧
-    serve anySat (build false k01aScript) k01aReq ≠ refMatch anySat false R k01aReq (cutAny k01aReq.path) ∧
-    classify anySat R k01aReq (cutAny k01aReq.path) = "names" :=
-  ⟨_, rfl, by decide, by decide, by decide⟩
+theorem K01a_asIs_witness : ∃ R, specRoutes k01aScript = some R ∧ normal R = true ∧
+    dNames R k01aReq (cutAny k01aReq.path) = true ∧
+    (let c := (getRouteGen false true anySat ((treeOf (build false k01aScript) G).getD Tree.empty) k01aReq.path Ctx.fresh).2
+     (c.param (B "x"), c.param (B "y")) = (B "1", [])) ∧
+    (serve anySat (build false k01aScript) k01aReq).lookups = [(B "x", []), (B "y", B "1")] ∧
+    serve anySat (build false k01aScript) k01aReq = refMatch anySat false R k01aReq (cutAny k01aReq.path) :=
+  ⟨_, rfl, by decide, by decide, by decide, by decide, by decide⟩
 
 /-- K01b — a static edge shadows the parameter sibling, the descent does not backtrack -/
 def k01bScript : List Reg := [reg "GET" "/users/:id/posts", reg "GET" "/users/admin/:x/y"]
@@ -457,7 +451,8 @@ theorem K01b_witness : ∃ R, specRoutes k01bScript = some R ∧ normal R = true
     classify anySat R k01bReq (cutAny k01bReq.path) = "shadow" :=
   ⟨_, rfl, by decide, by decide, by decide, by decide⟩
 
-/-- K01c — routes of one shape overwrite each other: constraint 0 accepts only digits, constraint 1 only letters -/
+/-- K01c — routes of one shape overwrite each other (one leaf per shape holds the last registration):
+constraint 0 accepts only digits, constraint 1 only letters; `/u/123` is answered 404 although `/u/:id` matches -/
 def k01cSat : Nat → Bytes → Bool := fun cid v => (cid == 0 && v == B "123") || (cid == 1 && v == B "abc")
 def k01cScript : List Reg := [reg "GET" "/u/:id" [(B "id", 0)], reg "GET" "/u/:name" [(B "name", 1)]]
 def k01cReq1 : Req := ⟨G, B "/u/123", [B "id"]⟩
@@ -465,7 +460,7 @@ def k01cReq2 : Req := ⟨G, B "/u/abc", [B "name"]⟩
 
 theorem K01c_witness : ∃ R, specRoutes k01cScript = some R ∧ normal R = true ∧
     (serve k01cSat (build false k01cScript) k01cReq1).status = 404 ∧
-    (serve k01cSat (build false k01cScript) k01cReq2).status = 404 ∧
+    (serve k01cSat (build false k01cScript) k01cReq2).ran = some 1 ∧
     (refMatch k01cSat false R k01cReq1 (cutAny k01cReq1.path)).ran = some 0 ∧
     (refMatch k01cSat false R k01cReq2 (cutAny k01cReq2.path)).ran = some 1 ∧
     classify k01cSat R k01cReq1 (cutAny k01cReq1.path) = "overwrite" :=
@@ -497,7 +492,7 @@ def k01eSat : Nat → Bytes → Bool := fun _ v => v == B "12"
 def k01eScript : List Reg := [reg "GET" "/f/:id/*" [(B "id", 0)]]
 
 theorem K01e_asIs_witness :
-    ((getRouteGen true k01eSat ((treeOf (build false k01eScript) G).getD Tree.empty) (B "/f/abc/x") Ctx.fresh).1.map (·.rid)) = some 0 ∧
+    ((getRouteGen true false k01eSat ((treeOf (build false k01eScript) G).getD Tree.empty) (B "/f/abc/x") Ctx.fresh).1.map (·.rid)) = some 0 ∧
     (getRoute k01eSat ((treeOf (build false k01eScript) G).getD Tree.empty) (B "/f/abc/x") Ctx.fresh).1 = none ∧
     ((getRoute k01eSat ((treeOf (build false k01eScript) G).getD Tree.empty) (B "/f/12/x") Ctx.fresh).1.map (·.rid)) = some 0 :=
   ⟨by decide, by decide, by decide⟩
@@ -516,21 +511,26 @@ static sibling, a second method, a wildcard registered through two groups and a 
 outcome is the constrained route with its binding -/
 example : ∃ R, specRoutes exScript = some R ∧ normal R = true ∧ (∀ g ∈ exScript, g.method ∈ stdMethods) ∧
     exReq.path.head? = some '/' ∧ dShadow R exReq (cutAny exReq.path) = false ∧
-    dNames R exReq (cutAny exReq.path) = false ∧ dCfall exSat R exReq (cutAny exReq.path) = false ∧
+    dCfall exSat R exReq (cutAny exReq.path) = false ∧
     (serve exSat (build false exScript) exReq).ran = some 0 ∧
     (serve exSat (build false exScript) exReq).lookups = [(B "id", B "42")] :=
-  ⟨_, rfl, by decide, by decide, by decide, by decide, by decide, by decide, by decide, by decide⟩
+  ⟨_, rfl, by decide, by decide, by decide, by decide, by decide, by decide, by decide⟩
 
 /-- … and for a request that ends in 405 with two methods in `Allow` -/
 example : ∃ R, specRoutes exScript = some R ∧ normal R = true ∧
-    dShadow R exReq405 (cutAny exReq405.path) = false ∧ dNames R exReq405 (cutAny exReq405.path) = false ∧
+    dShadow R exReq405 (cutAny exReq405.path) = false ∧
     dCfall exSat R exReq405 (cutAny exReq405.path) = false ∧
     cands exSat R exReq405.method (cutAny exReq405.path) = [] ∧
     (serve exSat (build false exScript) exReq405).status = 405 ∧
     (serve exSat (build false exScript) exReq405).allow = [B "POST"] :=
-  ⟨_, rfl, by decide, by decide, by decide, by decide, by decide, by decide, by decide⟩
+  ⟨_, rfl, by decide, by decide, by decide, by decide, by decide, by decide⟩
 
-/-- `lookup_sound` is not vacuous on a script that *is* in a recorded class (K01a) -/
-example : (serve anySat (build false k01aScript) k01aReq).ran = some 1 := by decide
+/-- `lookup_sound` is not vacuous on a script that *is* in a recorded class (K01b) -/
+example : (serve anySat (build false k01bScript) ⟨G, B "/users/admin/q/y", []⟩).ran = some 1 := by decide
+
+/-- the equality now also covers routes that name a shared parameter position differently (the old class `names`) -/
+example : ∃ R, specRoutes k01aScript = some R ∧ dShadow R k01aReq (cutAny k01aReq.path) = false ∧
+    dCfall anySat R k01aReq (cutAny k01aReq.path) = false ∧ dNames R k01aReq (cutAny k01aReq.path) = true :=
+  ⟨_, rfl, by decide, by decide, by decide⟩
 
 end Rivaas.C01
